@@ -736,6 +736,39 @@ def doc_jobs(ctx, nschemas, nsubst=0):
                 cases.append((kind, e, D.render_xml(M, e, r)))
         muts = R.schema_mutations(M, docs, r) if (th or si % 3 == 0) else []
         jobs.append(dict(M=M, docs=docs, cases=cases, muts=muts, tag=tag))
+    # fixed witness: a COUNTED skip wildcard followed by element particles the wildcard would also accept —
+    # sequence(any{2,2} ##any skip, n30{0,2}, n12?).  Once the counter of the wildcard is exhausted the children belong to the
+    # element particles: they must be assessed (PSVI type, element default, defaulted attributes, errors in their content), not
+    # skipped (IGXMLScanner / SGXMLScanner::laxElementValidation after DFAContentModel::handleRepetitions moved to a later entry)
+    if nschemas:
+        def curated(M):
+            w = M.leaf(("w", ("a",), "k"))
+            n0 = M.dleaf(M.gdecl(1, D.N["n0"])); e2 = M.dleaf(M.gdecl(1, D.N["e2"]))
+            return "O", ("G", "s", [("L", w, 2, 2), ("L", n0, 0, 2), ("L", e2, 0, 1)], 1, 1)
+        M, inst, tested = D.build_model(r, curated, None)
+        docs = D.render_xsd(M, r)
+        c = M.ctypes[tested[0]]
+        rd = M.decls[c["root"]]
+        kn0, ke2, ke0 = M.gdecl(1, D.N["n0"]), M.gdecl(1, D.N["e2"]), M.gdecl(1, D.N["e0"])
+        def skipped(v):
+            return D.mk(3, 77) if v == 0 else (inst.elem_for(ke0, 1, True) if v == 1 else inst.elem_for(kn0, 1, True))
+        shapes = [[kn0], [kn0, kn0], [ke2], [kn0, ke2], []]
+        cases = []
+        for v in range(3):
+            for tail in shapes:
+                kids = [skipped(v), skipped((v + 1) % 3)] + [inst.elem_for(k, 1, True) for k in tail]
+                e = D.mk(rd["ns"], rd["name"], attrs=inst.attrs_for(c, True), kids=kids)
+                D.number(e)
+                cases.append(("counted-wildcard", e, D.render_xml(M, e, r)))
+        # ... and an error inside the element that follows the counted wildcard must be reported
+        bad = inst.elem_for(ke2, 1, True); bad["attrs"].append((0, 19, 2))
+        e = D.mk(rd["ns"], rd["name"], attrs=inst.attrs_for(c, True), kids=[skipped(0), skipped(1), bad])
+        D.number(e)
+        cases.append(("counted-wildcard", e, D.render_xml(M, e, r)))
+        for kind, e in R.cases_for_type(M, inst, c, r, th, 60 if th else 25):
+            D.number(e)
+            cases.append((kind, e, D.render_xml(M, e, r)))
+        jobs.append(dict(M=M, docs=docs, cases=cases, muts=[], tag="", family="counted-wildcard"))
     # substitution-group chains: members typed by derivation steps over the head's type, block on every level, blockDefault
     for si in range(nsubst):
         M, inst, roots = D.build_subst_model(r, si % 3)
